@@ -87,7 +87,7 @@ class RxRecorder:
         except Exception as e:
             self.answers.append(('raised', type(e).__name__))
             raise
-        self.answers.append(('all', r))
+        self.answers.append(('all', list(r)))
         return r
 
 
